@@ -14,6 +14,8 @@ mod mouse;
 mod rom_hi;
 mod rom_lo;
 mod utils;
+#[cfg(dmd_core_verif)]
+pub mod verif;
 
 #[macro_use]
 extern crate lazy_static;
